@@ -30,7 +30,13 @@ def workflows():
         "fork2out": [("A", ["src"], ["a1", "a2"]), ("B", ["a1"], ["b"]), ("C", ["a2"], {"x": "c"})],
         "diamond": [("A", ["src"], ["a"]), ("B", ["a"], ["b"]), ("C", ["a"], ["c"]), ("D", ["b", "c"], ["d"])],
         "twocomp": [("A", ["src"], ["a"]), ("B", ["a"], ["b"]), ("X", ["src2"], ["sub/x"]), ("Y", ["sub/x"], [])],
+        # A declares a *directory* as its output; other targets' outputs and an unrelated file live inside it. Whatever clean does with
+        # the directory itself, files in it that are not unprotected outputs of a selected target stay.
+        "diroutput": [("A", ["src"], ["outdir"]), ("B", ["outdir"], ["outdir/b"]), ("C", ["outdir/b"], ["c"])],
     }
+
+
+DIR_OUTPUTS = {"outdir"}
 
 
 SPELLINGS = [lambda p: p, lambda p: "./" + p, lambda p: f"{PROJ}/{p}", lambda p: f"{PROJ}/./{p}", lambda p: f"sub/../{p}"]
@@ -93,7 +99,9 @@ def case_batch(acc, batch):
         names = [d[0] for d in defs]
         wf = W.Workflow([W.T(n, i, o, spec=f"echo {n}\n", protect=prot.get(n)) for n, i, o in defs])
         declared = sorted({p for t in wf.targets for p in t.flat("inputs") + t.flat("outputs")})
-        files = {p: (k + 1, "content:" + p) for k, p in enumerate(declared) if p not in missing}
+        files = {p: (k + 1, "content:" + p) for k, p in enumerate(declared) if p not in missing and p not in DIR_OUTPUTS}
+        if wname == "diroutput":
+            files["outdir/keep.txt"] = (1, "a file of the user's inside the output directory")
         for s in CW.sources(wf):
             files[s] = (1, "src")
         files["unrelated.txt"] = (1, "keep me")
@@ -105,7 +113,8 @@ def case_batch(acc, batch):
         if where != "proj":
             # decoys: files with the declared outputs' relative names under the directory gwf is started from
             for p in declared:
-                files.setdefault("sub/" + p, (1, "decoy:" + p))
+                if p not in DIR_OUTPUTS:
+                    files.setdefault("sub/" + p, (1, "decoy:" + p))
         hashes = {n: W.sha1(f"echo {n}\n") for n in names}
         w0 = W.World(wf, files=files, conf={"backend": "slurm", "use_spec_hashes": True}, tracked={"slurm": {names[0]: "1"}}, hashes=hashes,
                      logs={names[0] + ".stdout": "log\n", "Old.stderr": "old\n"})
@@ -159,7 +168,7 @@ def run(ctx):
     quick = ctx.tier == "quick"
     items = []
     for wname, defs in workflows().items():
-        outs = sorted({o for n, i, o_ in defs for o in W.T(n, [], o_).flat("outputs")})
+        outs = sorted({o for n, i, o_ in defs for o in W.T(n, [], o_).flat("outputs")} - DIR_OUTPUTS)
         miss_sets = [()] + [(o,) for o in outs] + ([tuple(outs)] if True else [])
         if not quick:
             miss_sets = [tuple(c) for k in range(len(outs) + 1) for c in itertools.combinations(outs, k)]
